@@ -117,6 +117,9 @@ func unquoteString(b []byte) ([]byte, int) {
 			return b, len(b)
 		}
 		if b[i] == '\r' || b[i] == '\n' {
+			if i == 0 {
+				return nil, 0
+			}
 			return b[0:i], i
 		}
 		if b[i] == '"' {
